@@ -111,11 +111,13 @@ class _Col(Adapter):
     return (np.array(rows, dtype=float),)
 
 
-SCALARS = [[1.0, 2.0, 4.0, -3.0], [NAN, 2.0, NAN, 5.0], [NAN, NAN, 1.0, 2.0], [3.0, 3.0, 3.0, 3.0]]
+SCALARS = [[1.0, 2.0, 4.0, -3.0], [NAN, 2.0, NAN, 5.0], [NAN, NAN, 1.0, 2.0], [3.0, 3.0, 3.0, 3.0],
+           [1e8 + 1.0, 1e8 + 2.0, 1e8 + 4.0, 1e8 - 3.0]]     # large offset, small spread: cancellation-prone
 VECTORS = [[[1.0, 2.0], [3.0, 4.0], [5.0, 6.0], [7.0, 9.0]],
            [[NAN, 1.0], [NAN, 2.0], [3.0, 3.0], [4.0, 5.0]],      # column 0 all-NaN in early batches
            [[NAN, NAN], [1.0, NAN], [2.0, 5.0], [NAN, 6.0]],
-           [[1.0, NAN], [2.0, NAN], [NAN, NAN], [4.0, NAN]]]      # a column that never has data
+           [[1.0, NAN], [2.0, NAN], [NAN, NAN], [4.0, NAN]],      # a column that never has data
+           [[1e8 + 1.0, -1e6 + 0.5], [1e8 + 2.0, -1e6 + 0.25], [1e8 + 4.0, -1e6], [1e8 - 3.0, -1e6 + 2.0]]]
 
 
 def _rs():
